@@ -958,6 +958,14 @@ class state_machine_base : public FrontEnd
             deferred_event<Event>{self(), event, seq_cnt}));
     }
 
+    // Resets the processing flag on every exit from an entry sequence,
+    // including exceptional ones.
+    struct entry_processing_guard
+    {
+        ~entry_processing_guard() { flag = false; }
+        bool& flag;
+    };
+
     template <class Event, class Fsm>
     void preprocess_entry(Event const& event, Fsm& fsm)
     {
@@ -1005,6 +1013,7 @@ class state_machine_base : public FrontEnd
     template <class Event, class Fsm>
     void on_entry(Event const& event, Fsm& fsm)
     {
+        entry_processing_guard guard{m_event_processing};
         preprocess_entry(event, fsm);
 
         state_entry_visitor<Event> visitor{self(), event};
@@ -1016,6 +1025,7 @@ class state_machine_base : public FrontEnd
     template <class TargetStates, class Event, class Fsm>
     void on_explicit_entry(Event const& event, Fsm& fsm)
     {
+        entry_processing_guard guard{m_event_processing};
         preprocess_entry(event, fsm);
 
         using state_identities =
